@@ -26,7 +26,9 @@ Section Svc.
   | Destroy (i : sid)           (* destroy_session *)
   | Find (i : sid)              (* find_session *)
   | Call (i : sid) (o : op)     (* any session function of the API *)
-  | CleanupAll.                 (* cleanup_all_sessions *)
+  | CleanupAll                  (* cleanup_all_sessions *)
+  | Advance (d : N)             (* the wall clock (time(NULL), whole seconds) moves on *)
+  | CleanupStale.               (* cleanup_stale_sessions: drop sessions idle for more than kLifeSpan *)
 
   Inductive out :=
   | OCreated (i : sid)
@@ -34,10 +36,13 @@ Section Svc.
   | OObs (x : obs)
   | OUnit.
 
-  (** std::map<SessionId, an<Session>>: association list without duplicate keys *)
-  Definition smap := list (sid * sess).
+  (** std::map<SessionId, an<Session>>: association list without duplicate keys;
+      an entry is the session and its last_active_time_ *)
+  Definition entry := (sess * N)%type.
+  Definition smap := list (sid * entry).
+  Definition life_span : N := 300.   (* Session::kLifeSpan = 5 * 60 seconds *)
 
-  Fixpoint lookup (i : sid) (m : smap) : option sess :=
+  Fixpoint lookup (i : sid) (m : smap) : option entry :=
     match m with
     | [] => None
     | (j, x) :: m' => if N.eqb j i then Some x else lookup i m'
@@ -50,29 +55,40 @@ Section Svc.
     end.
 
   (** sessions_[id] = session : replaces an existing binding *)
-  Definition insert (i : sid) (x : sess) (m : smap) : smap := (i, x) :: remove i m.
+  Definition insert (i : sid) (x : entry) (m : smap) : smap := (i, x) :: remove i m.
 
-  Record svc := { live : smap; settings : pers }.
+  Record svc := { live : smap; settings : pers; now : N }.
+
+  (** it->second->last_active_time() < now - Session::kLifeSpan *)
+  Definition stale (t : N) (e : entry) : bool := N.ltb (snd e) (t - life_span).
 
   Definition step (s : svc) (c : call) : svc * out :=
     match c with
     | Create i =>
-        ({| live := insert i (snew (settings s)) (live s); settings := settings s |}, OCreated i)
+        ({| live := insert i (snew (settings s), now s) (live s); settings := settings s; now := now s |}, OCreated i)
     | Destroy i =>
         match lookup i (live s) with
-        | Some _ => ({| live := remove i (live s); settings := settings s |}, OBool true)
+        | Some _ => ({| live := remove i (live s); settings := settings s; now := now s |}, OBool true)
         | None => (s, OBool false)
         end
     | Find i =>
-        (s, OBool (negb (N.eqb i 0) && match lookup i (live s) with Some _ => true | None => false end))
+        (* session_id && GetSession(session_id): GetSession activates the session it finds *)
+        if N.eqb i 0 then (s, OBool false) else
+        match lookup i (live s) with
+        | Some (x, _) => ({| live := insert i (x, now s) (live s); settings := settings s; now := now s |}, OBool true)
+        | None => (s, OBool false)
+        end
     | Call i o =>
         match lookup i (live s) with
-        | Some x =>
+        | Some (x, _) =>
             let '(x', b) := sstep x o in
-            ({| live := insert i x' (live s); settings := pstep x o (settings s) |}, OObs b)
+            ({| live := insert i (x', now s) (live s); settings := pstep x o (settings s); now := now s |}, OObs b)
         | None => (s, OObs (rejected o))
         end
-    | CleanupAll => ({| live := []; settings := settings s |}, OUnit)
+    | CleanupAll => ({| live := []; settings := settings s; now := now s |}, OUnit)
+    | Advance d => ({| live := live s; settings := settings s; now := (now s + d)%N |}, OUnit)
+    | CleanupStale =>
+        ({| live := filter (fun e => negb (stale (now s) (snd e))) (live s); settings := settings s; now := now s |}, OUnit)
     end.
 
   (** a run returns the final state and the transcript (call, observation) *)
@@ -108,38 +124,11 @@ Section Svc.
   Definition quiet_for (i : sid) (h : list call) : bool :=
     forallb (fun c => match c with
                       | Create j | Destroy j => negb (N.eqb j i)
-                      | CleanupAll => false
+                      | CleanupAll | CleanupStale => false
                       | _ => true
                       end) h.
 
-  (** the allocator never hands out 0 or the address of a live session *)
-  Fixpoint alloc_ok (m : list sid) (h : list call) : bool :=
-    match h with
-    | [] => true
-    | Create i :: h' => negb (N.eqb i 0) && negb (existsb (N.eqb i) m) && alloc_ok (i :: m) h'
-    | Destroy i :: h' => alloc_ok (filter (fun j => negb (N.eqb j i)) m) h'
-    | CleanupAll :: h' => alloc_ok [] h'
-    | _ :: h' => alloc_ok m h'
-    end.
-
   Definition keys (m : smap) : list sid := map fst m.
-
-  (** number of sessions a history leaves alive, counted from the calls alone *)
-  Fixpoint expected_live (n : nat) (s : svc) (h : list call) : nat :=
-    match h with
-    | [] => n
-    | c :: h' =>
-        let s1 := fst (step s c) in
-        match c with
-        | Create _ => expected_live (S n) s1 h'
-        | Destroy i => match lookup i (live s) with
-                       | Some _ => expected_live (pred n) s1 h'
-                       | None => expected_live n s1 h'
-                       end
-        | CleanupAll => expected_live 0 s1 h'
-        | _ => expected_live n s1 h'
-        end
-    end.
 End Svc.
 
 Arguments Create {op} i.
@@ -147,6 +136,8 @@ Arguments Destroy {op} i.
 Arguments Find {op} i.
 Arguments Call {op} i o.
 Arguments CleanupAll {op}.
+Arguments Advance {op} d.
+Arguments CleanupStale {op}.
 Arguments OCreated {obs} i.
 Arguments OBool {obs} b.
 Arguments OObs {obs} x.
